@@ -48,6 +48,13 @@ MUTS = [
     ("C18", "c18key", "src/config/core.rs", "        if !param_utils::is_valid(self.group.as_str()) {", "        if !param_utils::is_valid(self.data_id.as_str()) {", "s18_5_composed_key"),
     ("C18", "c18sites", "src/console/v2/config_api.rs", "    if let Err(e) = config_key.is_valid() {\n        return HttpResponse::Ok().json(ApiResult::<()>::error(\n            ERROR_CODE_SYSTEM_ERROR.to_string(),\n            Some(e.to_string()),\n        ));\n    }\n    let req = DelConfigReq::new(config_key);", "    let req = DelConfigReq::new(config_key);", "s18_4_handler_call_sites"),
     ("C13", "c11:run_c13", "src/naming/service.rs", "                    .add(instance.last_modified_millis as u64, key.clone());\n                self.instances.insert(key, Arc::new(instance));", "                    .add(instance.register_time as u64, key.clone());\n                self.instances.insert(key, Arc::new(instance));", "s13_expiry"),
+    # rounds 15-16
+    ("C08", "c03files:run_install_none", "src/raft/filestore/core.rs", "            u64::MAX\n        };", "            0\n        };", "s08_8_installation_empties_the_log"),
+    ("C08", "c03files:run_install_none", "src/raft/filestore/raftlog/mod.rs", "                self.current_log_actor = None;\n", "", "s08_8_installation_empties_the_log"),
+    ("C08", "c08:run_obligations", "src/raft/filestore/core.rs", "            u64::MAX\n        };", "            0\n        };", "s08_2_catalogue_membership_log"),
+    ("C01", "c01orch", "src/raft/filestore/raftapply.rs", "if let Some(e) = raft_index.snapshots.last() {", "if let Some(e) = raft_index.snapshots.first() {", "s01_2_startup_orchestration"),
+    ("C11", "c11index", "src/naming/core.rs", "            if service.instance_size <= 0\n                && now - self.sys_config.service_time_out_millis >= service.last_empty_times\n            {\n", "            if service.instance_size <= 0 {\n                self.namespace_index.remove_service(&service_map_key);\n            }\n            if service.instance_size <= 0\n                && now - self.sys_config.service_time_out_millis >= service.last_empty_times\n            {\n", "s11_3_service_index_and_cleanup"),
+    ("C13", "c11:run_c13", "src/naming/service.rs", "            if instance.ephemeral && !instance.from_grpc && old_instance.from_grpc {", "            if instance.ephemeral && !instance.from_grpc && old_instance.from_grpc && !old_instance.is_from_cluster() {", "s13_expiry"),
 ]
 
 
@@ -55,7 +62,8 @@ def main():
     scratch = "/var/tmp/verif-work/selftest-repo"
     os.environ["VERIF_NO_NATIVE"] = "1"
     ok = 0
-    for prop, mod, f, old, new, expect in MUTS:
+    muts = MUTS[-int(os.environ['VERIF_SELFTEST_LAST']):] if os.environ.get('VERIF_SELFTEST_LAST') else MUTS
+    for prop, mod, f, old, new, expect in muts:
         if os.path.exists(scratch):
             shutil.rmtree(scratch)
         shutil.copytree("/repo/src", os.path.join(scratch, "src"))
@@ -82,7 +90,7 @@ def main():
         if not good and hit:
             print("      other violation:", hit[0])
     shutil.rmtree(scratch, ignore_errors=True)
-    print("%d of %d detected" % (ok, len(MUTS)))
+    print("%d of %d detected" % (ok, len(muts)))
 
 
 if __name__ == "__main__":
